@@ -50,7 +50,7 @@ def strategy(ctx):
 
 
 def budget(ctx):
-    return dict(max_examples=ctx.pick(960, 8000), shards=16)
+    return dict(max_examples=ctx.pick(960, 24000), shards=16)
 
 
 def warmup():
